@@ -60,3 +60,24 @@ func verifHarness_R1a_Shortest() {
 	}
 	verifAssert(same, "ryuFtoaShortest hands the same bounds, exactness and rounding hints to the digit emitter as strconv's and applies the same decimal exponent")
 }
+
+// R1t: the same comparison for EVERY binary exponent and mantissa at once, with the helper functions uninterpreted
+// (identical on both sides, justified by R1f) — what is compared is the glue of ryuFtoaShortest itself.
+func verifHarness_R1t_Top() {
+	exp := nondetInt("exp")
+	verifAssume(exp >= -1074 && exp <= 971)
+	mant := nondetU64("mant")
+	verifAssume(mant < 1<<53)
+	var a decimalSlice
+	var b verifSDec
+	var ba, bb [32]byte
+	a.d, b.d = ba[:], bb[:]
+	ryuFtoaShortest(&a, mant, exp)
+	verifStrconvRyu(&b, mant, exp, &verifSFloatInfo{52, 11, -1023})
+	verifReach("R1t.top")
+	same := a.nd == b.nd && a.dp == b.dp
+	for i := 0; i < 32; i++ {
+		same = same && ba[i] == bb[i]
+	}
+	verifAssert(same, "ryuFtoaShortest hands the same bounds, exactness and rounding hints to the digit emitter as strconv's and applies the same decimal exponent")
+}
